@@ -255,7 +255,7 @@ def large_shard(name, sizes):
             msg = quiet(judge, trace, name, e.mod, e.tmp, None, None)
             stats.case(case, True, ("large-trace", "config:" + name), sample_cap=2)
             if msg:
-                stats.violations.append({"case": case, "msg": "%s, trace %s: %s" % (name, "with %d constraints" % n if isinstance(n, int) else "with %s public values" % n[3:], msg), "key": "large"})
+                stats.violations.append({"case": case, "msg": "%s, trace %s: %s" % (name, "with %d constraints" % n if isinstance(n, int) else "with %s public values" % n[3:] if n.startswith("pub") else "sweeping coefficients (%s)" % n, msg), "key": "large"})
     finally:
         e.close()
     return stats
@@ -286,7 +286,7 @@ def run(ctx):
         for k in range(5):
             jobs.append(dict(name=c, seed=ctx.seed * 1000 + 31 * i + k, n_examples=n, programs=(k % 2 == 0)))
     ctx.stats = core.run_shards("harness.checks.c11", "shard", jobs)
-    sizes = [1, 255, 256, 1000, 1001, 1025, "pub255", "pub256", "pub257"] if ctx.tier == "quick" else [1, 85, 255, 256, 257, 999, 1000, 1001, 1024, 1025, 2047, 2501, 4097, "pub255", "pub256", "pub257", "pub1000", "pub65537"]
+    sizes = [1, 255, 256, 1000, 1001, 1025, "pub255", "pub256", "pub257", "coef10001"] if ctx.tier == "quick" else [1, 85, 255, 256, 257, 999, 1000, 1001, 1024, 1025, 2047, 2501, 4097, "pub255", "pub256", "pub257", "pub1000", "pub65537", "coef70001"]
     lj = [dict(name=c, sizes=sizes[i::4]) for c in CONFIGS for i in range(4)]
     # more than 2^15 / 2^16 constraints in one run (a writer may split the constraint system over several messages)
     lj += [dict(name=CONFIGS[0], sizes=[32769])] if ctx.tier == "quick" else [dict(name=c, sizes=[n_]) for c in CONFIGS for n_ in (32769, 40001, 65537)]
